@@ -141,18 +141,21 @@ func (s *MultipartReply) UnmarshalBinary(data []byte) error {
 		case MultipartType_Aggregate:
 			repl = new(AggregateStats)
 		case MultipartType_Desc:
-			repl = new(DescStats)
+			repl = NewDescStats()
 		case MultipartType_Flow:
-			repl = new(FlowStats)
+			repl = NewFlowStats()
 		case MultipartType_Port:
-			repl = new(PortStats)
+			repl = NewPortStats()
 		case MultipartType_Table:
-			repl = new(TableStats)
+			repl = NewTableStats()
 		case MultipartType_Queue:
 			repl = new(QueueStats)
 		// FIXME: Support all types
 		case MultipartType_Experimenter:
 			break
+		}
+		if repl == nil {
+			return fmt.Errorf("unsupported MultipartReply type: %d", s.Type)
 		}
 
 		err = repl.UnmarshalBinary(data[n:])
@@ -904,7 +907,7 @@ func (s *QueueStats) UnmarshalBinary(data []byte) error {
 	s.PortNo = binary.BigEndian.Uint16(data[n:])
 	n += 2
 	copy(s.pad, data[n:])
-	n += len(s.pad)
+	n += 2
 	s.QueueId = binary.BigEndian.Uint32(data[n:])
 	n += 4
 	s.TxBytes = binary.BigEndian.Uint64(data[n:])
